@@ -44,9 +44,19 @@ func TestVerifC04Procs(t *testing.T) {
 
 		// names: shared, hash-colliding, long (three long names fill a page: concurrent extension)
 		nnames := rapid.IntRange(1, 5).Draw(t, "nnames")
+		// one case in four: many distinct long names, so that the processes together fill several pages and a
+		// process can lose the race for the newest page several times within one call
+		manyLong := rapid.IntRange(0, 3).Draw(t, "manyLongNames") == 0
+		if manyLong {
+			nnames = rapid.IntRange(8, 16).Draw(t, "nnamesLong")
+		}
 		names := make([]string, nnames)
 		for i := range names {
-			switch rapid.IntRange(0, 3).Draw(t, "nameKind") {
+			kind := rapid.IntRange(0, 3).Draw(t, "nameKind")
+			if manyLong {
+				kind = 0
+			}
+			switch kind {
 			case 0, 3:
 				names[i] = fmt.Sprintf("L%d/", i) + strings.Repeat("y", rapid.OneOf(rapid.SampledFrom([]int{2500, 4000, 4090}), rapid.IntRange(1500, 4090)).Draw(t, "longLen"))
 			case 1:
@@ -93,7 +103,11 @@ func TestVerifC04Procs(t *testing.T) {
 		counters := make([]map[int]*Counter, nprocs)
 		for p := range progs {
 			counters[p] = map[int]*Counter{}
-			for j, n := 0, rapid.IntRange(1, 6).Draw(t, "nops"); j < n; j++ {
+			maxOps := 6
+			if manyLong {
+				maxOps = 9
+			}
+			for j, n := 0, rapid.IntRange(1, maxOps).Draw(t, "nops"); j < n; j++ {
 				op := c04Op{name: rapid.IntRange(0, nnames-1).Draw(t, "name"), n: rapid.Int64Range(1, 50).Draw(t, "n")}
 				progs[p] = append(progs[p], op)
 				if counters[p][op.name] == nil {
@@ -275,7 +289,7 @@ func TestVerifC04Procs(t *testing.T) {
 		vstats.Case(fmt.Sprintf("procs=%s schedule(len %d, %d switches)=%v", strings.Join(ps, " "), len(trace), switches, tail(trace, 50)),
 			interleavedCreate || killedInside, fmt.Sprintf("interleavedCreate:%v", interleavedCreate), fmt.Sprintf("killedInside:%v", killedInside),
 			fmt.Sprintf("killed:%d", killed), fmt.Sprintf("pages:%d", lastSize/vformat.Page),
-			fmt.Sprintf("openInRace:%v", openInRace), fmt.Sprintf("sawFileUnderCreation:%v", creatingFile), fmt.Sprintf("killedWhileCreating:%v", killedCreating))
+			fmt.Sprintf("openInRace:%v", openInRace), fmt.Sprintf("manyLongNames:%v", manyLong), fmt.Sprintf("sawFileUnderCreation:%v", creatingFile), fmt.Sprintf("killedWhileCreating:%v", killedCreating))
 		vstats.Note("scheduler_steps", int64(len(trace)))
 	})
 }
